@@ -551,6 +551,12 @@ class Ctx:
         return None
 
     def truth_hook(self, I, v):
+        for p in self.plugins:
+            t = getattr(p, "truth", None)
+            if t is not None:
+                r = t(I, v)
+                if r is not None:
+                    return r
         return None
 
     def lookup_special(self, name, fr):
